@@ -398,12 +398,30 @@ class C12:
             if rng.chance(1, 4):
                 g.add("bytewise", gen.resp_op(tree, ov, None, [s[i:i + 1] for i in range(len(s))]))
             groups.append(g)
+        # bodies the op line cannot carry: the executor produces the chunks itself (`RESPBIG total piece`), one call per chunk.
+        # Implementation only.  Beyond 4 GiB in the thorough tier (twelfth round: the decoded length kept in a u32)
+        from . import srcdict
+        bigs = [(300_000, 65_536), (1 << 20, 4096), ((1 << 24) + 5, 1 << 20)]
+        if tier != "quick":
+            bigs += [((1 << w) + 16, 1 << 26) for w in srcdict.load().get("widths", [32]) if 30 <= w <= 32]
+        for j, (total, piece) in enumerate(bigs):
+            g = Group("big%d" % j, "big-body", {"total": total, "piece": piece})
+            g.add("big", "RESPBIG %d %d" % (total, piece), {"nocmp": True})
+            groups.append(g)
         return groups
 
     @staticmethod
     def oracle(group, res):
         fails = []
         meta = group.meta
+        if group.kind == "big-body":
+            out = strip_ann(res[group.tag(0)])
+            want = "BIG C cl=%d blen=%d te=False left=0" % (meta["total"], meta["total"])
+            if out.startswith("ABORT") and meta["total"] >= 1 << 30:
+                return fails        # the machine could not hold the body (the executor was killed): not judged
+            if out.lower() != want.lower():
+                fails.append(Failure(group, "dechunk-big", "a chunked body of %d bytes in chunks of %d: `%s`, expected `%s`" % (meta["total"], meta["piece"], out[:80], want), [0]))
+            return fails
         hs = [(unhex(a), unhex(b)) for a, b in meta["headers"]]
         trs = [(unhex(a), unhex(b)) for a, b in meta["trailers"]]
         ts = [unhex(t).lower() for t in meta["ts"]]
@@ -433,6 +451,8 @@ class C12:
 
     @staticmethod
     def nontrivial(group, res):
+        if group.kind == "big-body":
+            return True
         return ParseResult(res[group.tag(0)]).verdict == "complete"
 
 
